@@ -21,7 +21,7 @@ def _distinct(keys, compound):
                 assume(not cells_eq(keys[i], keys[j]))
 
 
-def melt_recast(sym, N, dom, compound, keyarg):
+def melt_recast(sym, N, dom, compound, keyarg, rev=False):
     """recast(melt(t, key)) == sort(t, key) with variable fields in sorted order, for unique keys."""
     n = nrows(sym, 'n', N)
     if compound:
@@ -29,6 +29,9 @@ def melt_recast(sym, N, dom, compound, keyarg):
         rows = [[cell(sym, 'r%d.k' % i, dom), 'y%d' % i, cell(sym, 'r%d.j' % i, dom), 'x%d' % i] for i in range(n)]
         keys = [(r[0], r[2]) for r in rows]
         key = ['k', 'j']
+        if rev:                                    # key fields given in another order than they appear in the header
+            keys = [(r[2], r[0]) for r in rows]
+            key = ['j', 'k']
     else:
         hdr = ['y', 'k', 'x']
         rows = [['y%d' % i, cell(sym, 'r%d.k' % i, dom), 'x%d' % i] for i in range(n)]
@@ -276,6 +279,9 @@ def jobs(tier):
         for keyarg in ('key', 'variables'):
             out.append(dict(name='melt-recast/%s/%s' % (dom, keyarg), func='melt_recast',
                             params=dict(N=N - compound, dom=dom, compound=compound, keyarg=keyarg), budget=B))
+        if compound:
+            out.append(dict(name='melt-recast/%s/key-reordered' % dom, func='melt_recast',
+                            params=dict(N=N - compound, dom=dom, compound=compound, keyarg='key', rev=True), budget=B))
     out.append(dict(name='transpose', func='transpose_inv', params=dict(N=N - 1, W=3), budget=B))
     out.append(dict(name='flatten-unflatten', func='flatten_unflatten', params=dict(N=N, W=3), budget=B))
     out.append(dict(name='melt-ragged', func='melt_ragged', params=dict(N=N), budget=B))
